@@ -26,6 +26,7 @@ CASES = {"quick": 12800, "thorough": 300000}
 ALPHA = ["'", '"', "'''", '"""', "//", "/*", "*/", "\\", "\n", " ", "\t", ".5", "0", "07", "0x1F", "0b1", "12", "a", "_x", "$v", "@l", "§l", "def", "if", "case",
          "Position", "<", ">", "{", "}", "(", ")", ";", ",", "=", "é", "\r", "﻿", "\x00", "~m"]
 _tape = st.lists(st.integers(0, 10000), min_size=1, max_size=30)
+BS, NL = chr(92), chr(10)
 
 
 def strategy(tier):
@@ -35,7 +36,12 @@ def strategy(tier):
     heavy = st.fixed_dictionaries({"kind": st.just("text"), "text": st.lists(st.sampled_from(ALPHA), max_size=40).map("".join)})
     from vf.core import weighted
 
-    return weighted((1, rendered), (1, uni), (2, heavy))
+    # growth probe: prefix + piece * k + suffix for growing k - a lexer that terminates "on every input" must not need
+    # work that explodes with k (backtracking in a token rule); pieces are the characters the rules are built around
+    pieces = ["*", "/", "/*", "*/", "'", '"', BS, BS + "'", "//", NL, "'" * 3, '"' * 3, "a", " ", "0", ".", "$", "@", "*a", "* ", "''", "<", "("]
+    frag = st.lists(st.sampled_from(ALPHA), max_size=4).map("".join)
+    growth = st.fixed_dictionaries({"kind": st.just("growth"), "pre": frag, "piece": st.sampled_from(pieces), "post": frag})
+    return weighted((2, rendered), (2, uni), (4, heavy), (1, growth))
 
 
 def pygments_normalise(text: str) -> str:
@@ -48,11 +54,40 @@ def pygments_normalise(text: str) -> str:
     return text
 
 
+def eval_growth(case, stt):
+    """time of lexing pre + piece*k + post for k = 8, 12, .., 32 (minimum of two runs each); flagged when a step of four
+    more repetitions makes it both slow (> 0.3 s) and more than eight times slower than the step before"""
+    import time
+
+    from explorerscript.pygments.expslexer import ExplorerScriptLexer
+
+    fails = []
+    stt.count("growth_probe")
+    lexer = ExplorerScriptLexer()
+    prev = None
+    for k in (8, 12, 16, 20, 24, 28, 32):
+        text = case["pre"] + case["piece"] * k + case["post"]
+        best = None
+        for _ in range(2):
+            t0 = time.perf_counter()
+            sum(1 for _ in lexer.get_tokens_unprocessed(text))
+            dt = time.perf_counter() - t0
+            best = dt if best is None else min(best, dt)
+        if prev is not None and best > 0.3 and best > 8 * max(prev, 1e-4):
+            fails.append(Failure("lexing_time_explodes", f"{len(text)} characters take {best:.2f} s, four repetitions of {case['piece']!r} fewer took {prev:.4f} s; input={text!r}"))
+            break
+        prev = best
+    stt.mark_nontrivial(case)
+    return fails
+
+
 def evaluate(case, stt):
     from pygments.token import Error
 
     from explorerscript.pygments.expslexer import ExplorerScriptLexer
 
+    if case["kind"] == "growth":
+        return eval_growth(case, stt)
     fails = []
     accepted = False
     if case["kind"] == "program":
